@@ -178,6 +178,7 @@ type Stats struct {
 	LibTasks      int
 	SimTime       time.Duration
 	Truncated     bool
+	SoloSkips     int // scheduling points passed without parking because only one task was alive
 }
 
 // Sim is one simulated run.
@@ -192,19 +193,21 @@ type Sim struct {
 	nslots int
 	tasks  []*Task
 
-	schedG   uintptr
-	step     int
-	last     *Task
-	lastObj  uintptr
-	objIDs   map[uintptr]int
-	start    time.Time
-	pctNext  int
-	pctChg   []int
-	sig      uint64
-	fair     bool
-	rr       int
-	elig     []*Task
-	finished bool
+	schedG    uintptr
+	step      int
+	last      *Task
+	lastObj   uintptr
+	objIDs    map[uintptr]int
+	start     time.Time
+	pctNext   int
+	pctChg    []int
+	sig       uint64
+	fair      bool
+	rr        int
+	elig      []*Task
+	live      int
+	decisions int
+	finished  bool
 
 	// Deadlock is set when no task could make progress.
 	Deadlock string
@@ -212,7 +215,6 @@ type Sim struct {
 	Livelock string
 	// Panics of tasks that were not recovered by the task's own code.
 	Panics []*Task
-
 }
 
 const maxTasks = 256
@@ -262,6 +264,9 @@ func (s *Sim) Step() int { return s.step }
 
 // Elapsed returns the simulated time since the start of the run.
 func (s *Sim) Elapsed() time.Duration { return time.Since(s.start) }
+
+// StartTime returns the (fake) wall clock at the start of the run.
+func (s *Sim) StartTime() time.Time { return s.start }
 
 // Signature identifies the sequence of preemptive context switches of the run.
 func (s *Sim) Signature() uint64 { return s.sig }
@@ -392,6 +397,7 @@ func (s *Sim) spawn(name string, lib bool, site string, fn func()) *Task {
 		}
 	}
 	t := s.newTask(name, parent, lib, site)
+	s.live++
 	ready := make(chan struct{})
 	go s.runTask(t, fn, ready)
 	// Wait until the child is registered and parked-to-be, so that the task
@@ -413,6 +419,7 @@ func (s *Sim) runTask(t *Task, fn func(), ready chan struct{}) {
 			s.Panics = append(s.Panics, t)
 		}
 		s.unregister(t)
+		s.live--
 		t.state = stDone
 	}()
 	t.reqKind = OpStart
@@ -466,6 +473,11 @@ func (s *Sim) park(kind OpKind, obj uintptr, mu *MutexModel, rw *RWModel, wg *WG
 		t = s.adopt(g)
 	}
 	if t.exiting {
+		return
+	}
+	if s.live <= 1 && kind != OpQuiesce && mu == nil && rw == nil && wg == nil && once == nil && cond == nil {
+		// the only live task: there is no scheduling decision to make here
+		s.Stats.SoloSkips++
 		return
 	}
 	t.reqKind, t.reqObj = kind, obj
@@ -852,11 +864,16 @@ func (s *Sim) Run(main func()) {
 			continue
 		}
 		idle = 0
-		if s.step >= s.Cfg.MaxSteps && !s.fair {
+		// The step budget counts scheduling decisions (steps at which more than one
+		// task could run); forced moves are bounded separately by a hard cap.
+		if len(s.elig) > 1 {
+			s.decisions++
+		}
+		if s.decisions >= s.Cfg.MaxSteps && !s.fair {
 			s.fair = true
 			s.Stats.Truncated = true
 		}
-		if s.step >= 3*s.Cfg.MaxSteps {
+		if s.decisions >= 3*s.Cfg.MaxSteps || s.step >= 60*s.Cfg.MaxSteps {
 			s.Livelock = s.describeStuck()
 			break
 		}
